@@ -30,6 +30,7 @@ func runC03(c *Ctx) {
 	R.Trusted = []string{"go/types + go/ssa", "io.ReadFull / bufio contracts"}
 	sum := c.summaries("C03.R2")
 	mods := c.modSets()
+	_ = sum
 
 	// ---------- R1: who touches the byte source
 	nSrc := 0
@@ -103,86 +104,46 @@ func runC03(c *Ctx) {
 	}
 
 	// ---------- R2: exact window
-	rms := c.mustMethod("C03.R2", "buffer", "Reader", "ReadMsgSize")
 	rum := c.mustMethod("C03.R2", "buffer", "Reader", "ReadUntypedMsg")
 	reset := c.mustMethod("C03.R2", "buffer", "Reader", "reset")
-	if rms != nil {
-		R.Analysed(fname(rms))
-		l := core.NewLin(c.P, rms, mods, sum)
-		ok := false
-		for _, r := range returns(rms) {
-			if !core.IsNilConst(r.Results[1]) {
-				continue
+	if rum != nil && reset != nil {
+		R.Analysed(fname(rum))
+		fl := c.fills(rum)
+		if len(fl) != 1 {
+			R.Fail("C03.R2", "ReadUntypedMsg:shape", c.atFn(rum), "ReadUntypedMsg resets the window to the declared size and fills it with one io.ReadFull", sprintf("%d reset + ReadFull steps found (inline or through a helper of the reader)", len(fl)))
+		} else {
+			f := fl[0]
+			l := core.NewLin(c.P, rum, mods, sum)
+			R.Check(c.headerSizeExpr(l, f.size, 0), "C03.R2", "ReadMsgSize:size-is-header-minus-4", c.at(f.site), "the window size is the unsigned 32-bit big-endian header minus 4, with no lossy conversion", "E-LIN normal form: Uint32(header[:]) - 4 (inline or returned by the size helper)", "the size handed to reset is not Uint32(header) - 4 through value-preserving conversions (a signed or narrowed decode mis-sizes large declared lengths)")
+			via := "inline reset(size) + io.ReadFull(Buffer, Msg)"
+			if f.via != nil {
+				via = "helper " + fkey(f.via) + " (reset(p); return io.ReadFull(Buffer, Msg))"
 			}
-			// result == uint32(header) - 4 through value-preserving conversions
-			t, off := l.Expr(r.Results[0])
-			if call, isCall := t.V.(*ssa.Call); isCall && off == -4 && t.K == core.TVal {
-				if f := core.StaticCallee(call); f != nil && f.Name() == "Uint32" && f.Pkg != nil && f.Pkg.Pkg.Path() == "encoding/binary" {
-					// the decoded bytes are the 4 header bytes just read
-					_, p := pathOf(call.Call.Args[1])
-					_ = p
-					if sl, isSl := call.Call.Args[1].(*ssa.Slice); isSl {
-						if fr, isF := core.FieldOfAddr(sl.X); isF && fr.Is(pkBuffer, "Reader", "header") {
-							ok = true
+			R.OK("C03.R2", "ReadUntypedMsg:fills-the-window", c.at(f.site), "the body is read with one io.ReadFull into the window just reset to the declared size (len == size by the verified reset summary)", via)
+			// the header itself is read in full before it is decoded
+			okHdr := false
+			for _, fn := range []*ssa.Function{rum, c.P.Method("buffer", "Reader", "ReadMsgSize")} {
+				if fn == nil {
+					continue
+				}
+				for _, ci := range core.Calls(fn) {
+					if core.FuncIs(core.StaticCallee(ci), "io", "ReadFull") {
+						if sl, isSl := ci.Common().Args[1].(*ssa.Slice); isSl {
+							if fr, isF := core.FieldOfAddr(sl.X); isF && fr.Is(pkBuffer, "Reader", "header") {
+								okHdr = true
+							}
 						}
 					}
 				}
 			}
-		}
-		R.Check(ok, "C03.R2", "ReadMsgSize:size-is-header-minus-4", c.atFn(rms), "the body size is the unsigned 32-bit big-endian header minus 4, with no lossy conversion", "E-LIN normal form: Uint32(header[:]) - 4", "the returned size is not Uint32(header) - 4 through value-preserving conversions (a signed or narrowed decode mis-sizes large declared lengths)")
-		// the header itself is filled by ReadFull
-		okHdr := false
-		for _, ci := range core.Calls(rms) {
-			if core.FuncIs(core.StaticCallee(ci), "io", "ReadFull") {
-				if sl, isSl := ci.Common().Args[1].(*ssa.Slice); isSl {
-					if fr, isF := core.FieldOfAddr(sl.X); isF && fr.Is(pkBuffer, "Reader", "header") {
-						okHdr = true
-					}
-				}
-			}
-		}
-		R.Check(okHdr, "C03.R2", "ReadMsgSize:header-read-in-full", c.atFn(rms), "the 4 header bytes are read in full", "io.ReadFull(Buffer, header[:])", "the header is not filled by io.ReadFull")
-	}
-	if rum != nil && reset != nil {
-		R.Analysed(fname(rum))
-		var sizeV ssa.Value
-		for _, ci := range callsIn(rum, calleeIs(rms)) {
-			sizeV = resultOf(ci.(*ssa.Call), 0)
-		}
-		var resetCall, readFull *ssa.Call
-		for _, ci := range core.Calls(rum) {
-			call, ok := ci.(*ssa.Call)
-			if !ok {
-				continue
-			}
-			if core.StaticCallee(call) == reset {
-				resetCall = call
-			}
-			if core.FuncIs(core.StaticCallee(call), "io", "ReadFull") {
-				readFull = call
-			}
-		}
-		if sizeV == nil || resetCall == nil || readFull == nil {
-			R.Fail("C03.R2", "ReadUntypedMsg:shape", c.atFn(rum), "ReadUntypedMsg reads the size, resets the window and fills it", "ReadMsgSize / reset / io.ReadFull not found")
-		} else {
-			R.Check(resetCall.Call.Args[1] == sizeV, "C03.R2", "ReadUntypedMsg:window-is-declared-size", c.at(resetCall), "the window is reset to exactly the declared body size", "reset(size) with the ReadMsgSize result", "reset is not called with the declared size")
-			// ReadFull fills reader.Msg as left by reset
-			l := core.NewLin(c.P, rum, mods, sum)
-			okFill := core.InstrDominates(resetCall, readFull)
-			if u, isU := readFull.Call.Args[1].(*ssa.UnOp); isU {
-				mv := l.FM.Loads[u]
-				okFill = okFill && mv != nil && mv.Kind == core.MPost && mv.Call == ssa.CallInstruction(resetCall) && mv.Field == "Msg"
-			} else {
-				okFill = false
-			}
-			R.Check(okFill, "C03.R2", "ReadUntypedMsg:fills-the-window", c.at(readFull), "the body is read with one io.ReadFull into the window just reset (len == declared size, by the verified reset summary)", "io.ReadFull(Buffer, Msg) where Msg is the value left by reset(size)", "io.ReadFull does not fill the window produced by reset(size)")
-			// ---------- R3: every successful return passed reset + ReadFull
+			R.Check(okHdr, "C03.R2", "ReadMsgSize:header-read-in-full", c.atFn(rum), "the 4 header bytes are read in full", "io.ReadFull(Buffer, header[:])", "the header is not filled by io.ReadFull")
+			// ---------- R3: every successful return passed the fill
 			for _, r := range returns(rum) {
 				cls := c.Err().Classify(errOperand(r), r.Block())
 				if !cls.MayBeNil() {
 					continue
 				}
-				R.Check(core.InstrDominates(resetCall, r) && core.InstrDominates(readFull, r), "C03.R3", "ReadUntypedMsg:success-passes-reset:"+retDescr(r), c.at(r), "every successful message read discards the previous window and reads the new body (nothing of the previous message survives)", "reset and ReadFull dominate the return", "a return that may be successful is reachable without reset / ReadFull: the next handler sees the previous message's unread bytes")
+				R.Check(core.InstrDominates(f.site, r), "C03.R3", "ReadUntypedMsg:success-passes-reset:"+retDescr(r), c.at(r), "every successful message read discards the previous window and reads the new body (nothing of the previous message survives)", "the reset + ReadFull step dominates the return", "a return that may be successful is reachable without reset / ReadFull: the next handler sees the previous message's unread bytes")
 			}
 		}
 	}
@@ -218,7 +179,7 @@ func runC03(c *Ctx) {
 			}
 		}
 	}
-	R.Floor("C03.R3", "stores to Reader.Msg", nSt, 6)
+	R.Floor("C03.R3", "stores to Reader.Msg", nSt, 3)
 
 	// ---------- R4: accessors
 	var accs []*ssa.Function
@@ -230,7 +191,7 @@ func runC03(c *Ctx) {
 	nOb, nOK := c.panicFreedom("C03.R4", accs)
 	R.Count("bounds_obligations", nOb)
 	R.Count("bounds_discharged", nOK)
-	R.Floor("C03.R4", "bounds obligations in the reader", nOb, 14)
+	R.Floor("C03.R4", "bounds obligations in the reader", nOb, 8)
 	c.c03Advance()
 
 	// ---------- R5: error discipline
@@ -294,7 +255,27 @@ func (c *Ctx) c03Advance() {
 			}
 		}
 		if decoded == nil || advance == nil {
-			R.Fail("C03.R4", sp.name+":consume-what-you-decode", c.atFn(fn), "the accessor decodes a prefix of the window and advances past it", "prefix slice Msg[:h] or advancing store Msg = Msg[l:] not found")
+			// delegation: the fixed-width accessors may take their bytes from GetBytes(width)
+			width := map[string]int64{"GetUint16": 2, "GetUint32": 4}[sp.name]
+			okDel := false
+			if width > 0 {
+				for _, ci := range core.Calls(fn) {
+					call, isCall := ci.(*ssa.Call)
+					if !isCall || !isReaderMethod(call, "GetBytes") {
+						continue
+					}
+					if k, isK := core.ConstInt(call.Call.Args[1]); isK && k == width {
+						// the decode reads exactly that slice, on the success edge
+						for _, cj := range core.Calls(fn) {
+							f := core.StaticCallee(cj)
+							if f != nil && f.Pkg != nil && f.Pkg.Pkg.Path() == "encoding/binary" && cj.Common().Args[len(cj.Common().Args)-1] == resultOf(call, 0) && anyDominates(nilEdges(resultOf(call, 1), true), cj.Block()) {
+								okDel = true
+							}
+						}
+					}
+				}
+			}
+			R.Check(okDel, "C03.R4", sp.name+":consume-what-you-decode", c.atFn(fn), "the accessor decodes a prefix of the window and advances past it (directly, or by taking exactly its width from GetBytes)", sprintf("delegates to GetBytes(%d) and decodes that slice on the success edge", width), "prefix slice Msg[:h] / advancing store Msg = Msg[l:] not found, and no delegation to GetBytes(width)")
 			continue
 		}
 		ht, ho := l.Expr(decoded.High)
